@@ -526,3 +526,46 @@ func uniformity(src *tmpl.Source) (lens []int, errs []uniErr) {
 	sort.Ints(lens)
 	return lens, errs
 }
+
+// FreeNames computes K-FREE over all flag combinations on a representative shape.
+func (c *Ctx) FreeNames() (map[string]string, error) {
+	src, err := c.Source()
+	if err != nil {
+		return nil, err
+	}
+	out := map[string]string{}
+	for bits := 0; bits < 16; bits++ {
+		e := tmpl.Env{Stub: bits&1 != 0, SkipEnsure: bits&2 != 0, WithResets: bits&4 != 0, External: bits&8 != 0,
+			Mocks: []tmpl.MockShape{{Methods: []tmpl.MethodShape{{NParams: 2, Variadic: true, NResults: 2}, {}}}}}
+		model := tmpl.BuildModel(e)
+		dvs, err := tmpl.Derive(c.Prog, model, "")
+		if err != nil {
+			return nil, err
+		}
+		var data *interp.Struct
+		for _, dv := range dvs {
+			if !dv.Failed && dv.Data != nil {
+				data = dv.Data
+				break
+			}
+		}
+		if data == nil {
+			return nil, fmt.Errorf("no template data derivable for %s", e)
+		}
+		model = tmpl.ModelFromData(model, data)
+		sks, err := tmpl.ExpandData(src, func() *interp.Machine { m := interp.New(c.Prog); tmpl.InstallTypesModels(m, c.Prog); return m }, model, data, nil)
+		if err != nil {
+			return nil, err
+		}
+		for _, sk := range sks {
+			u := skel.Build(c.Prog, sk)
+			if u.ParseErr != nil || len(u.TypeErrs) > 0 {
+				return nil, fmt.Errorf("skeleton for %s does not type-check", e)
+			}
+			for k, v := range u.FreeNames() {
+				out[k] = v
+			}
+		}
+	}
+	return out, nil
+}
